@@ -372,3 +372,24 @@ def collapse_aliases(fnode: ast.AST) -> ast.AST:
     out = D().visit(out)
     ast.fix_missing_locations(out)
     return out
+
+
+def numerics_positive_examples():
+    """the scatter and narrowing rules (expected count on persim: zero) must flag their tiny positive examples, and only
+    those, on every run — AnalysisError otherwise"""
+    import os
+    from ..core.loader import AnalysisError, Project
+    from . import narrow_rule, scatter_rule
+    here = os.path.join(os.path.dirname(os.path.dirname(os.path.abspath(__file__))), "selftest", "positive")
+    pp = Project(here, pkg="pospkg")
+    hits, st = scatter_rule.analyse(pp, "pospkg.numerics.")
+    names = sorted(h["fi"].qualname.rsplit(".", 1)[1] for h in hits)
+    if names != ["pools_without_accumulating"] or st["accumulating_sites"] != 1:
+        raise AnalysisError(f"positive example: the scatter rule flagged {names} (accumulating sites {st['accumulating_sites']})")
+    out = dict(scatter=names)
+    for entry, want in (("narrows_the_data", 1), ("narrows_only_its_table", 0)):
+        h2, _ = narrow_rule.analyse(pp, "pospkg.numerics", f"pospkg.numerics.{entry}")
+        if len(h2) != want:
+            raise AnalysisError(f"positive example: the narrowing rule flagged {len(h2)} cast(s) in {entry}, expected {want}")
+        out[entry] = len(h2)
+    return out
